@@ -6,7 +6,8 @@ From Coq Require Import ZArith List Bool Lia.
 Import ListNotations.
 Require Import Base.Py Base.ZList Model.Crc Model.Ogg
   Proofs.C15_lacing Proofs.C15_page Proofs.C15_unpage Proofs.C15_paging Proofs.C15_from_packets
-  Proofs.C15_refuted Proofs.C15_file.
+  Proofs.C15_refuted Proofs.C15_file Proofs.C15_slot.
+Require Import Base.FileModel Gen.Gen_util Proofs.FileLemmas.
 Open Scope Z_scope.
 
 (* (a) a page within the Ogg limits (struct ranges, version 0, <= 255 lacing values, `complete` as __init__ would
@@ -97,6 +98,15 @@ Theorem C15_replace_slots_partial : forall slots pre,
     (Ok tt, pre ++ new_layout slots, new_end_of (zlen pre) slots).
 Proof. exact slot_loop_spec. Qed.
 Print Assumptions C15_replace_slots_partial.
+
+(* one iteration of that loop in the model (replace_slot) is exactly `resize_bytes; seek; write` of the Gallina code
+   regenerated from mutagen/_util.py (C11), for every copy-buffer size and both seek flavours *)
+Theorem C15_slot_is_resize_bytes : forall real part BUF, 1 <= BUF -> forall f p off old data,
+  0 <= old -> 0 <= off -> (off + old <= zlen f \/ zlen data = old) ->
+  fst (slot_prog BUF off old data (mkF f p (benign real part))) = Ok tt /\
+  replace_slot f off old data = Ok (fdata (snd (slot_prog BUF off old data (mkF f p (benign real part))))).
+Proof. exact slot_is_resize_bytes. Qed.
+Print Assumptions C15_slot_is_resize_bytes.
 
 (* the new pages as replace() prepares them: serial of the old run, numbered from its first page, `first` and
    `continued` of the first old page on the first new page, `last` and `complete` of the last old page on the last *)
